@@ -155,7 +155,7 @@ func ruleR5(c *Ctx, prop string) {
 	want := func(ids ...string) bool {
 		sets := map[string][]string{
 			"C01": {"M2", "M3", "M4", "M5", "M6", "M7", "M8", "M9", "M13"},
-			"C13": {"M1"},
+			"C13": {"M1", "M2", "M13"},
 			"C15": {"M4", "M5"},
 			"C18": {"M4", "M9", "M10", "M11"},
 			"C02": {"M2", "M4", "M13"},
